@@ -87,15 +87,142 @@ def nontrivial(spec, truth, body_mode, mut):
     return sum(1 for v in truth.values() if not v) >= 2 or (len(truth) >= 2 and all(truth.values()))
 
 
+# ---------------------------------------------------------------------------------------------------------------
+# several bases: the order among the contracts that reach a class over more than one path
+
+MULTI_SRC = '''\
+import icontract
+LOG = []
+T = {}
+def mk(role, name):
+    if role == "post":
+        def cond(result):
+            LOG.append((role, name))
+            return T.get(name, True)
+    else:
+        def cond(self):
+            LOG.append((role, name))
+            return T.get(name, True)
+    cond.__name__ = name
+    return cond
+class Err(Exception): pass
+def err(name):
+    return type("E_" + name, (Exception,), {})
+ERRS = {n: err(n) for n in ("qa", "qb", "qc", "qd", "qm", "ia", "ib", "id", "pa", "pd")}
+@icontract.invariant(mk("inv", "ia"), error=ERRS["ia"])
+class A(icontract.DBC):
+    @icontract.require(mk("pre", "pa"), error=ERRS["pa"])
+    @icontract.ensure(mk("post", "qa"), error=ERRS["qa"])
+    {adef} f(self):
+        return 1
+@icontract.invariant(mk("inv", "ib"), error=ERRS["ib"])
+class B(A):
+    @icontract.ensure(mk("post", "qb"), error=ERRS["qb"])
+    {adef} f(self):
+        return 1
+class C(A):
+    @icontract.ensure(mk("post", "qc"), error=ERRS["qc"])
+    {adef} f(self):
+        return 1
+class M(icontract.DBC):
+    @icontract.ensure(mk("post", "qm"), error=ERRS["qm"])
+    {adef} f(self):
+        return 1
+@icontract.invariant(mk("inv", "id"), error=ERRS["id"])
+class D(B, C):
+    @icontract.ensure(mk("post", "qd"), error=ERRS["qd"])
+    {adef} f(self):
+        LOG.append(("body", "D"))
+        return 1
+class D2(C, B):
+    @icontract.ensure(mk("post", "qd"), error=ERRS["qd"])
+    {adef} f(self):
+        LOG.append(("body", "D2"))
+        return 1
+class D3(B, M):
+    @icontract.ensure(mk("post", "qd"), error=ERRS["qd"])
+    {adef} f(self):
+        LOG.append(("body", "D3"))
+        return 1
+'''
+# for each class: (posts in effect, precedence constraints "x before y": an inherited contract precedes the own contracts of the
+# class that inherited it, and everything inherited precedes the own contracts of the class itself)
+MULTI = {
+    "D": (["qa", "qb", "qc", "qd"], [("qa", "qb"), ("qa", "qc"), ("qb", "qd"), ("qc", "qd"), ("qa", "qd")], ["ia", "ib", "id"]),
+    "D2": (["qa", "qb", "qc", "qd"], [("qa", "qb"), ("qa", "qc"), ("qb", "qd"), ("qc", "qd"), ("qa", "qd")], ["ia", "ib"]),
+    "D3": (["qa", "qb", "qm", "qd"], [("qa", "qb"), ("qb", "qd"), ("qm", "qd"), ("qa", "qd")], ["ia", "ib"]),
+}
+
+
+def check_multi(acc):
+    import itertools
+    for is_async in (False, True):
+        ns = core.load_source(MULTI_SRC.replace("{adef}", "async def" if is_async else "def"), "c16m")
+        try:
+            for cls, (posts, before, invs) in sorted(MULTI.items()):
+                def run(truth):
+                    def go():
+                        ns["T"].clear()
+                        obj = ns[cls]()
+                        ns["T"].update(truth)
+                        del ns["LOG"][:]
+                        try:
+                            r = obj.f()
+                            if is_async:
+                                r = core.run_coro(r)
+                            return "ret"
+                        except BaseException as e:  # noqa
+                            return type(e).__name__
+                    return core.fresh_ctx_run(go), list(ns["LOG"])
+                out, log = run({})
+                order = [n for r, n in log if r == "post"]
+                first = {n: order.index(n) for n in posts if n in order}
+                f0 = {"family": "several_bases", "cls": cls, "is_async": is_async}
+                acc.case(("multi", cls, is_async, ()), True, len(log), out)
+                bad = None
+                if out != "ret" or set(order) != set(posts):
+                    bad = ("postcondition_set", "all true: outcome {} evaluated {} expected each of {}".format(out, order, posts))
+                else:
+                    for x, y in before:
+                        if first[x] > first[y]:
+                            bad = ("order_across_bases", "{} (inherited) is evaluated after {} (own contract of an inheriting class): order {}".format(x, y, order))
+                            break
+                    phases = [r for r, _ in log]
+                    if not bad and (("pre" in phases and phases.index("pre") < phases.index("inv")) or "inv" not in phases[phases.index("post"):]):
+                        bad = ("phase_order", "log {}".format(log))
+                if bad:
+                    acc.violation(core.Violation(PROP, bad[0], f0, "{}.f(): {}".format(cls, bad[1]), spec={"multi": cls}, script=MULTI_SRC))
+                    continue
+                # several falsy postconditions: the error is that of the first one in the evaluation order
+                for k in (1, 2, 3):
+                    for falsy in itertools.combinations(posts, k):
+                        out2, log2 = run({n: False for n in falsy})
+                        want = "E_" + min(falsy, key=lambda n: first[n])
+                        acc.case(("multi", cls, is_async, falsy), True, len(log2), out2)
+                        evaluated = [n for r, n in log2 if r == "post"]
+                        if out2 != want or evaluated != order[:order.index(want[2:]) + 1]:
+                            acc.violation(core.Violation(PROP, "wrong_error_or_evaluation_continued", dict(f0, falsy=",".join(falsy)),
+                                                         "{}.f() with {} falsy: expected {} after evaluating {}, got {} after {}".format(
+                                                             cls, falsy, want, order[:order.index(want[2:]) + 1], out2, evaluated),
+                                                         spec={"multi": cls}, script=MULTI_SRC))
+                            break
+            acc.sample({"family": "several_bases", "async": is_async}, cap=1)
+        finally:
+            core.unload_source(ns)
+
+
 def work(chunk):
     acc = core.Acc()
     for spec in chunk:
-        famcheck.check_spec(PROP, spec, acc, ROLES, params, symptom_of, nontrivial)
+        if spec == "multi":
+            check_multi(acc)
+        else:
+            famcheck.check_spec(PROP, spec, acc, ROLES, params, symptom_of, nontrivial)
     return acc.result()
 
 
 def run(tier, t0):
-    sp = core.rotate(specs(tier))
+    sp = core.rotate(specs(tier)) + ["multi"]
     tot = core.merge(core.pmap(work, sp))
     return core.finish(
         PROP, tier, tot, t0,
@@ -103,11 +230,21 @@ def run(tier, t0):
              "snapshot/invariant x decorator layout x condition style x error form) x all truth assignments (<=6 conditions: "
              "all 2^n; more: all with <=3 falsy); complete event log and reported error compared with the reference order; "
              "non-trivial = >=2 falsy conditions, or all true with >=2 conditions",
-        assumptions=["single inheritance chains here; several bases / diamonds are explored by C04",
+        assumptions=["family F has single inheritance chains; for several bases (diamond in both base orders, two unrelated bases; sync/async) the "
+                     "precedence 'inherited before own' and the first-failure error are checked on three hand-written hierarchies x all "
+                     "sets of <=3 falsy postconditions (a diamond may evaluate an inherited condition once per path)",
                      "a violated lambda condition may be re-evaluated once (documented)"],
         bounds={"programs": len(sp), "max_stack": 3, "max_levels": 3},
     )
 
 
 def replay(path):
+    import json
+    if "multi" in json.load(open(path))["spec"]:
+        acc = core.Acc()
+        check_multi(acc)
+        for v in acc.violations:
+            print("VIOLATION property={} replay={}".format(PROP, path))
+            print(" ", v.symptom, v.detail[:600])
+        return 1 if acc.violations else 0
     return famcheck.replay(PROP, path, ROLES, symptom_of)
